@@ -351,6 +351,44 @@ def entry_points(ctx, P):
     ctx.floor("C18.4 R-ORDER", 4)
 
 
+def byte_entries_step_like_the_automaton(ctx, P, ev, trans, impl_states):
+    """the two byte-wise entry points are the automaton, item by item: evaluated on every one-byte input from every reachable state
+    of the automaton (is_complete false), each returns the automaton's verdict and leaves the automaton's successor state - so a
+    shortcut that bypasses is_byte_valid() for some bytes is accepted exactly when it cannot change the outcome (and this is
+    decided for the signedness of plain char of the configuration analysed)"""
+    from ..core.feval import FEval, OutOfInput
+    S = "struct.cjet_utf8_checker"
+    for key in ("utf8_checker.c:cjet_is_text_valid", "utf8_checker.c:cjet_is_byte_sequence_valid"):
+        f = P.fn(key)
+        fe = FEval(P, f, S)
+        bad = None
+        n = 0
+        try:
+            for ist in sorted(impl_states):
+                st = dict(ist)
+                for b in range(256):
+                    exp = trans.get((ist, b))
+                    if exp is None:
+                        continue
+                    try:
+                        ret, new = fe.run(st, {2: 1, 3: 0}, arrays={1: bytes([b])}, callees={ev.f.name: ev}, max_steps=20000)
+                    except OutOfInput as e:
+                        bad = bad or "state %s, byte %02x: %s" % (dict(ist), b, e)
+                        continue
+                    n += 1
+                    verdict = bool(ret & 1)
+                    if verdict != exp[0]:
+                        bad = bad or "in state %s the byte %02x is %s by %s but %s by the automaton" % (
+                            dict(ist), b, "accepted" if verdict else "refused", f.srcname, "accepted" if exp[0] else "refused")
+                    elif verdict and tuple(sorted(new.items())) != exp[1]:
+                        bad = bad or "in state %s the byte %02x leaves %s in state %s, the automaton in %s" % (dict(ist), b, f.srcname, new, dict(exp[1]))
+        except AnalysisBroken as e:
+            raise AnalysisBroken("%s cannot be evaluated item by item: %s" % (f.srcname, e))
+        ctx.ob("C18.4 R-PRODUCT", f, "one-byte-inputs-step-like-the-automaton", bad is None and n >= 256,
+               ("%s is not the automaton applied to each byte: %s" % (f.srcname, bad)) if bad else
+               "%d (state, byte) pairs agree with the automaton" % n)
+
+
 def every_byte(ctx, P):
     """the byte-wise entry point feeds EVERY byte to the automaton (an ASCII byte inside an open multi-byte sequence is an
     error only the automaton sees)"""
@@ -456,7 +494,7 @@ def tiling(ctx, P):
 
 
 def run(ctx):
-    for cfg in ctx.configs(["default"]):
+    for cfg in ctx.configs(["default", "uchar"]):
         P = cfg.P
         f, ev, st0 = extract(ctx, P)
         trans, start, impl_states = product(ctx, P, f, ev, st0)
@@ -465,4 +503,5 @@ def run(ctx):
         entry_points(ctx, P)
         tiling(ctx, P)
         every_byte(ctx, P)
+        byte_entries_step_like_the_automaton(ctx, P, ev, trans, impl_states)
     ctx.floor("C18.2 R-PRODUCT", 4)
